@@ -1,0 +1,71 @@
+//go:build verif
+
+/*
+ * Licensed to the Apache Software Foundation (ASF) under one or more
+ * contributor license agreements.  See the NOTICE file distributed with
+ * this work for additional information regarding copyright ownership.
+ * The ASF licenses this file to You under the Apache License, Version 2.0
+ * (the "License"); you may not use this file except in compliance with
+ * the License.  You may obtain a copy of the License at
+ *
+ *     http://www.apache.org/licenses/LICENSE-2.0
+ *
+ * Unless required by applicable law or agreed to in writing, software
+ * distributed under the License is distributed on an "AS IS" BASIS,
+ * WITHOUT WARRANTIES OR CONDITIONS OF ANY KIND, either express or implied.
+ * See the License for the specific language governing permissions and
+ * limitations under the License.
+ */
+
+package parser
+
+// Verification contracts (comment-only, tag verif) for property C08, protobuf serializer: what
+// ConvertToIntree hands to rollback carries, for every column, a value of the Go kind the undo
+// executors work with - the kind the JSON serializer's typed decoding (types.ColumnImage.UnmarshalJSON)
+// restores: time values for DATE / TIME / TIMESTAMP columns, bytes for binary columns.
+// l, r, c stand for an arbitrary log, row and column index. Environment: protobuf / anypb
+// (convertAnyToInterface: any value or an error).
+//@ func convertAnyToInterface
+//@   trusted
+//@   ensures true
+//@ ext google.golang.org/protobuf/types/known/anypb.UnmarshalTo
+//@   ensures true
+// Assumed of encoding/json: Unmarshal into a *types.ColumnImage runs (*ColumnImage).UnmarshalJSON
+// (the Unmarshaler dispatch), so what that method is proved to establish for its receiver
+// (types/verif_contracts.go: times-come-back-as-times, binary-comes-back-as-bytes) holds for the
+// target when Unmarshal succeeds.
+//@ extlocal encoding/json.Unmarshal
+//@   macro typed(col) := col.Value != nil ==> ((col.ColumnType == 91 || col.ColumnType == 92 || col.ColumnType == 93) ==> isT(col.Value, time.Time)) && ((col.ColumnType == -2 || col.ColumnType == -3 || col.ColumnType == -4) ==> isT(col.Value, []byte))
+//@   modifies *v.(*types.ColumnImage)
+//@   ensures result == nil ==> typed(v.(*types.ColumnImage))
+//@ func restoreColumn
+//@   prop C08
+//@   macro typed(col) := col.Value != nil ==> ((col.ColumnType == 91 || col.ColumnType == 92 || col.ColumnType == 93) ==> isT(col.Value, time.Time)) && ((col.ColumnType == -2 || col.ColumnType == -3 || col.ColumnType == -4) ==> isT(col.Value, []byte))
+//@   ensures decoded-by-the-column-images-own-rules: result1 == nil ==> typed(result0)
+//@   may_panic
+//@ func ConvertToIntree
+//@   prop C08
+//@   requires protoLog != nil
+//@   let l := some(int, "l")
+//@   let r := some(int, "r")
+//@   let c := some(int, "c")
+//@   macro typed(col) := col.Value != nil ==> ((col.ColumnType == 91 || col.ColumnType == 92 || col.ColumnType == 93) ==> isT(col.Value, time.Time)) && ((col.ColumnType == -2 || col.ColumnType == -3 || col.ColumnType == -4) ==> isT(col.Value, []byte))
+//@   macro colsok(cols) := 0 <= c && c < len(cols) ==> typed(cols[c])
+//@   macro imgok(img) := img != nil && 0 <= r && r < len(img.Rows) ==> colsok(img.Rows[r].Columns)
+//@   macro logsok(logs) := 0 <= l && l < len(logs) ==> imgok(logs[l].BeforeImage) && imgok(logs[l].AfterImage)
+//@   loop 1 invariant index: rangeindex1 >= -1
+//@   loop 1 invariant logs-typed: logsok(intreeLog.Logs)
+//@   loop 2 invariant logs-typed: logsok(intreeLog.Logs)
+//@   loop 2 invariant before-typed: imgok(undoSqlLog.BeforeImage)
+//@   loop 3 invariant logs-typed: logsok(intreeLog.Logs)
+//@   loop 3 invariant before-typed: imgok(undoSqlLog.BeforeImage)
+//@   loop 3 invariant row-typed: colsok(undoRow.Columns)
+//@   loop 4 invariant logs-typed: logsok(intreeLog.Logs)
+//@   loop 4 invariant before-typed: imgok(undoSqlLog.BeforeImage)
+//@   loop 4 invariant after-typed: imgok(undoSqlLog.AfterImage)
+//@   loop 5 invariant logs-typed: logsok(intreeLog.Logs)
+//@   loop 5 invariant before-typed: imgok(undoSqlLog.BeforeImage)
+//@   loop 5 invariant after-typed: imgok(undoSqlLog.AfterImage)
+//@   loop 5 invariant row-typed: colsok(undoRow.Columns)
+//@   at return: assert values-come-back-in-the-kind-of-their-column: logsok(result.Logs)
+//@   may_panic
